@@ -14,7 +14,7 @@ from gv.common import exact_equal, result, viol
 PID = "C17"
 TECHNIQUE = "property-based testing with index-carrying samples; the oracle is a partition/alignment predicate over everything get_batches returns (exact)"
 RULE = (
-    "Hypothesis draws L in 1..24, B in 1..L, a key (None or PRNGKey(seed)), 1-3 co-batched multi-images with different type sets, channel counts and "
+    "Hypothesis draws L in 1..24 (one case in six: 25..700), B in 1..L, a key (None or PRNGKey(seed)), 1-3 co-batched multi-images with different type sets, channel counts and "
     "storage orders, d in {1,2}, and a device count n dividing B (the function only uses len(devices); lists of the single CPU device simulate n devices). "
     "Sample i carries the value i (plus a type/channel/pixel code) in every block. Predicate: floor(L/B) batches per multi-image; each batch block has "
     "shape (n, B/n, ...); flattening the device axis restores the batch; the index vector read from any block of any co-batched multi-image is the same; "
@@ -29,9 +29,10 @@ CONFIG = {
 
 
 def draw_case(data, tier):
-    L = data.draw(st.integers(1, 24), label="L")
+    # mostly small data sets; one in six is large (a threshold such as "more than 512 samples" must be reachable)
+    L = data.draw(st.integers(1, 24), label="L") if data.draw(st.integers(0, 5), label="large_L") else data.draw(st.integers(25, 700), label="L_large")
     B = data.draw(st.integers(1, L), label="B")
-    divs = [n for n in range(1, B + 1) if B % n == 0]
+    divs = [n for n in range(1, min(B, 16) + 1) if B % n == 0]
     ndev = data.draw(st.sampled_from(divs), label="ndev")
     d = data.draw(st.sampled_from([1, 2]), label="d")
     shape, _ = gen.draw_shape(data, d, 1, 2, classes=("free",))
@@ -44,7 +45,7 @@ def draw_case(data, tier):
 
 def run_case(case):
     L, B, ndev, d, shape = case["L"], case["B"], case["ndev"], case["d"], tuple(case["shape"])
-    labels = ["key_none" if case["key"] is None else "key_given", "divisible" if L % B == 0 else "remainder", f"ndev{min(ndev, 4)}", f"n_mi{len(case['sigs'])}", f"d{d}"]
+    labels = ["L_large" if L > 24 else "L_small", "key_none" if case["key"] is None else "key_given", "divisible" if L % B == 0 else "remainder", f"ndev{min(ndev, 4)}", f"n_mi{len(case['sigs'])}", f"d{d}"]
     key = [L, B, ndev, d, shape, case["sigs"], case["key"] is None, case["bare"]]
     nontrivial = (L % B != 0) or case["key"] is not None
     originals = []
